@@ -3,6 +3,7 @@ package gen
 import (
 	"fmt"
 	"math/big"
+	"os"
 	"strings"
 	"time"
 
@@ -264,7 +265,8 @@ func ethHash(n int) string {
 	return fmt.Sprintf("0x%064x", n)
 }
 func ethAddr(n int) string {
-	return fmt.Sprintf("0x%040x", n+1)
+	// contains hex letters so that letter-case variants of a contract are different strings
+	return fmt.Sprintf("0x%032xabcd%04x", 0, n+1)
 }
 
 func (g *Gen) originTx(classID string, forBridge bool) *basetypes.OriginTx {
@@ -329,7 +331,7 @@ func (g *Gen) genCreateBatch() *eng.Tx {
 	if p == nil {
 		return nil
 	}
-	if len(g.V.BatchList) >= g.P.MaxBatches && !g.hostile() {
+	if len(g.V.BatchList) >= g.P.MaxBatches && !g.hostile() && !(g.P.Boundary >= 0.3 && len(g.V.BatchList) < g.P.MaxBatches+40 && g.chance(0.5)) {
 		return nil
 	}
 	c := g.V.Classes[p.ClassKey]
@@ -337,10 +339,19 @@ func (g *Gen) genCreateBatch() *eng.Tx {
 		return nil
 	}
 	s := g.date()
+	g.boundaryStartUsed = false
 	if bs := g.boundaryStart(); bs != nil {
 		s = *bs
+		g.boundaryStartUsed = true
 	}
 	e := g.date()
+	if bs := g.boundaryStartUsed; bs {
+		// keep the aimed start date: the end date follows it
+		e = s.Add(time.Duration(1+g.R.Intn(400)) * 24 * time.Hour)
+		if e.Year() > 9999 {
+			e = s
+		}
+	}
 	switch g.R.Intn(5) {
 	case 0:
 		e = s // equal dates are accepted by message validation
@@ -400,6 +411,14 @@ func (g *Gen) genMint() *eng.Tx {
 	// retired mints smaller than what the recipient already holds retired (the row is rewritten while
 	// its retired column is non-zero)
 	for _, i := range iss {
+		if g.chance(0.08) {
+			// the rarely used directly-retired option with one decimal place too many
+			i.RetiredAmount = g.overPrecise()
+			if i.RetirementJurisdiction == "" {
+				i.RetirementJurisdiction = "US"
+			}
+			continue
+		}
 		if g.chance(0.4) {
 			_, r, _ := g.V.BalOf(i.Recipient, b.Key)
 			if r.Sign() > 0 {
@@ -847,6 +866,9 @@ func (g *Gen) boundaryStart() *time.Time {
 		return nil
 	}
 	bk := g.V.BasketList[g.R.Intn(len(g.V.BasketList))]
+	for i := 0; i < 4 && (bk.DateCriteria == nil || (bk.DateCriteria.MinStartDate != nil && g.chance(0.5))); i++ {
+		bk = g.V.BasketList[g.R.Intn(len(g.V.BasketList))] // moving criteria (window, years) preferred
+	}
 	c := bk.DateCriteria
 	if c == nil {
 		return nil
@@ -865,10 +887,17 @@ func (g *Gen) boundaryStart() *time.Time {
 	default:
 		return nil
 	}
-	d := []time.Duration{0, time.Nanosecond, -time.Nanosecond, time.Second, -time.Second, 500 * time.Millisecond, 5 * time.Second, 30 * time.Second}[g.R.Intn(8)]
+	d := []time.Duration{0, 0, 0, time.Nanosecond, -time.Nanosecond, time.Second, -time.Second, 500 * time.Millisecond, 5 * time.Second, 30 * time.Second}[g.R.Intn(10)]
+	if c.StartDateWindow != nil && g.chance(0.6) {
+		// a moving window: start far enough ahead of the boundary that a later block time can be aimed at it
+		d = []time.Duration{10 * time.Minute, 2 * time.Hour, 20 * time.Hour}[g.R.Intn(3)]
+	}
 	t := min.Add(d).UTC()
 	if t.Year() < 1 || t.Year() > 9999 {
 		return nil
+	}
+	if os.Getenv("VERIF_DEBUG") != "" {
+		fmt.Printf("# DEBUG boundaryStart basket %s window=%v years=%d d=%s start=%s now=%s\n", bk.BasketDenom, c.StartDateWindow != nil, c.YearsInThePast, d, t, g.Now)
 	}
 	return &t
 }
